@@ -633,6 +633,23 @@ def prop_cn(case):
 def st_case_cn(draw):
     r = draw(st.randoms(use_true_random=False))
     doc, target = build(r)
+    segnames = [l[1][0] for l in doc["lines"] if l[0] == "S"]
+    if len(segnames) >= 2 and gen.chance(r, 0.35):
+        # two segments that share a base name (A and A*2, A*2 and A*3): the automatic copy names of the
+        # one must avoid the other and the copies made meanwhile
+        base = segnames[0].split("*")[0]
+        taken = set(segnames)
+        new = gen.choice(r, [x for x in (base + "*2", base + "*3", base + "*4", base) if x not in taken] or [None])
+        if new:
+            old = segnames[1]
+            for l in doc["lines"]:
+                if l[0] == "S" and l[1][0] == old:
+                    l[1][0] = new
+                elif l[0] in "LC":
+                    if l[1][0] == old:
+                        l[1][0] = new
+                    if l[1][2] == old:
+                        l[1][2] = new
     ctag = gen.choice(r, ["cn", "cn", "cy"])
     otag = gen.choice(r, [None, None, "og"])
     lines = []
